@@ -203,7 +203,7 @@ Proof.
       rewrite (Hh _ None) by eassumption. rewrite (IHl _ ltac:(eassumption)).
       rewrite (etok_recase a y) by assumption. reflexivity. }
     rewrite ARGS. destruct (chk_args mg fa E (map parser_fold args')) as [tys ds].
-    unfold call_node. destruct (resolve p sigs tys) as [sig|errs]; [|reflexivity].
+    unfold call_node. destruct (resolve p sigs tys) as [sig|errs]; [|now rewrite Hc].
     rewrite (builtin_call_recase mg E p c c' args args' sig) by assumption. reflexivity.
 Qed.
 End ChkRecase.
